@@ -348,9 +348,9 @@ def main(argv=None):
     for wt, wpt in (("states(x=1)\nparameters(a=1/4)\nk = 1/4*x + abs(x)**(1/2)\ndx_dt = k*a\n", {"t": 0.0, "states": {"x": 8.0}, "params": {"a": 0.25}}),
                     ("states(x=1, y=2)\ndx_dt = Mod(y, 2)\ndy_dt = 1\n", {"t": 0.0, "states": {"x": 0.5, "y": -1.7}, "params": {}}),
                     # Mod of dividends sympy knows to be non-negative, by divisors of either sign (the result has the sign of the divisor)
-                    ("states(x=1, y=2)\nparameters(p=1.5)\nk = Mod(abs(y), p) + Mod(y*y, -2.0) + Mod(exp(y), p) + Mod(abs(y) + 1.0, -p)\ndx_dt = k - x\ndy_dt = Mod(x*x, p) - Mod(abs(x), 2.0) - y\n",
+                    ("states(x=1, y=2)\nparameters(p=1.5)\nk = Mod(abs(y), p) + Mod(y*y, -2.0) + Mod(exp(y), p) + Mod(abs(y) + 1.0, -p) + Mod(y, 2.0*p) + Mod(y + 7.0, p/3.0) + Mod(t + 5.0, 0.5*p*p)\ndx_dt = k - x\ndy_dt = Mod(x*x, p) - Mod(abs(x), 2.0) + Mod(x, p + 2.5) - y\n",
                      {"t": 0.0, "states": {"x": 1.7, "y": -0.6}, "params": {"p": -2.0}}),
-                    ("states(x=1, y=2)\nparameters(p=1.5)\nk = Mod(abs(y), p) + Mod(y*y, -2.0) + Mod(exp(y), p) + Mod(abs(y) + 1.0, -p)\ndx_dt = k - x\ndy_dt = Mod(x*x, p) - Mod(abs(x), 2.0) - y\n",
+                    ("states(x=1, y=2)\nparameters(p=1.5)\nk = Mod(abs(y), p) + Mod(y*y, -2.0) + Mod(exp(y), p) + Mod(abs(y) + 1.0, -p) + Mod(y, 2.0*p) + Mod(y + 7.0, p/3.0) + Mod(t + 5.0, 0.5*p*p)\ndx_dt = k - x\ndy_dt = Mod(x*x, p) - Mod(abs(x), 2.0) + Mod(x, p + 2.5) - y\n",
                      {"t": 0.0, "states": {"x": -2.3, "y": 1.1}, "params": {"p": 1.5}}),
                     # constants for which sympy's C printer substitutes a math.h macro (M_PI_4, M_SQRT2, M_LN2, ...)
                     ("states(x=1, y=2)\nk = atan(1)*x + sqrt(2.0)*y + log(2.0) + 2.0/pi + exp(1.0)\nj = (abs(atan(1)) + 2.0)**(x/8) + sqrt(2)*x + log(2)*y + log(10) + 1/pi + pi/2 + exp(1)\n"
